@@ -139,6 +139,12 @@ def record_ops(fn, workdir, targets):
             elif k == "rename":
                 out.append(("rename", r, role(x)))
         i += 1
+    record_ops.temps_left = sorted(p for p in roles if os.path.exists(p))
+    for p in record_ops.temps_left:
+        try:
+            os.remove(p)
+        except OSError:
+            pass
     return res, out
 
 
@@ -245,15 +251,8 @@ def run_real_fix(ws, specs, doc, extra_args=()):
     argv += ["-d", ",".join(ids)] + list(extra_args) + ["fix", "doc.md"]
     log = fix_log()
     log.clear()
-    before = set(os.listdir(tempfile.gettempdir()))
     (code, out, err), ops = record_ops(lambda: vlib.run_main(argv, cwd=d), d, {"doc.md"})
-    after = set(os.listdir(tempfile.gettempdir()))
-    leaked = sorted(x for x in after - before if x.startswith("tmp"))
-    for x in leaked:
-        try:
-            os.remove(os.path.join(tempfile.gettempdir(), x))
-        except OSError:
-            pass
+    leaked = [os.path.basename(x) for x in record_ops.temps_left]     # temp files created by THIS run that still exist
     content = open(os.path.join(d, "doc.md"), encoding="utf-8", newline="").read()
     return dict(code=code, out=out, err=err, content=content, ops=ops, log=[tuple(e) for e in log], leaked=leaked,
                 announced="Fixed: doc.md" in out)
